@@ -114,7 +114,7 @@ PLAN = {
                            'agreement with eval_f64 on real operands']),
     'C09': dict(verus=['number-ast', 'number-tok', 'number-glue'], kani=['number-ast', 'number-l4'], level='proof', assumptions=F64_ASSUME + KANI_ASSUME + TOK_ASSUME,
                 unclaimed=['bit-level meaning of the IEEE primitives (A-ieee in the Verus unit: each is an uninterpreted total function; Kani proves + - * unary minus abs and the rounding functions bit-exact, / and % on a bounded domain)']),
-    'C15': dict(verus=['i64-ast', 'f64-ast', 'number-ast', 'i64number-agree'] + PARSERS, kani=['i64-ast', 'number-ast', 'f64-ast', 'number-l4'], tables_agree=True, level='proof',
+    'C15': dict(verus=['i64-ast', 'f64-ast', 'number-ast', 'i64number-agree'] + PARSERS + GLUES, kani=['i64-ast', 'number-ast', 'f64-ast', 'number-l4'], tables_agree=True, level='proof',
                 assumptions=AST_ASSUME + F64_ASSUME + KANI_ASSUME + PARSER_ASSUME + [
                     'agreement is obtained as a corollary, not as one relational theorem: (1) eval_i64 returns Ok(v) only for the exact integer v (Verus, all trees) and eval_number returns Integer(exact) on Integer operands whenever it fits (Kani, per constructor), '
                     '(2) every Float / mixed arm of eval_number has the numeric value of the IEEE operation that the same arm of eval_f64 applies (Kani, per constructor, bit-exact), '
@@ -131,7 +131,7 @@ PLAN = {
                 assumptions=F64_ASSUME[:2] + ['A-ieee: rustc/LLVM and CBMC agree on IEEE-754 binary64 comparison, floor and float->int casts',
                              'loop-free harness over kani::any::<f64>() / kani::any::<i64>(): every bit pattern, no bound'],
                 unclaimed=[]),
-    'C19': dict(verus=TOKS, kani=['f64-ast', 'complex-ast'], level='proof', assumptions=TOK_ASSUME + KANI_ASSUME,
+    'C19': dict(verus=TOKS + GLUES, kani=['f64-ast', 'complex-ast'], level='proof', assumptions=TOK_ASSUME + KANI_ASSUME,
                 unclaimed=['that std str::parse::<f64> is correctly rounded, parse::<i64> exact and Decimal::from_str exact (A-std-parse: the conversions are uninterpreted)',
                            'the read-back clause: it needs the shape of std / rust_decimal / num_complex Display output (A-display), which no contract here can express; '
                            'what is proved towards it: the literal grammar accepted by the tokenizers, and that a prefix minus is an exact sign flip (Kani K:f64-ast/step_negative, K:complex-ast/step_negative, Verus i64 Negative)']),
@@ -139,7 +139,7 @@ PLAN = {
                 unclaimed=[]),
 
     'C06': dict(
-        verus=['i64-ast', 'i64-tok'], kani=['i64-ast'],
+        verus=['i64-ast', 'i64-tok', 'i64-glue'], kani=['i64-ast'],
         level='proof',
         assumptions=[
             'A-std-int: assumed contracts of i64::checked_neg/checked_abs/checked_pow/unsigned_abs/signum/wrapping_rem (vstd has none); vstd contracts of checked_add/sub/mul/div',
@@ -150,8 +150,8 @@ PLAN = {
     ),
     'C03': dict(verus=PARSERS + TOKS + GLUES, level='proof', assumptions=PARSER_ASSUME + TOK_ASSUME,
                 unclaimed=[]),
-    'C04': dict(verus=PARSERS + TOKS, kani=['tables'], level='proof', assumptions=PARSER_ASSUME + TOK_ASSUME, unclaimed=[]),
-    'C12': dict(verus=PARSERS + TOKS, level='proof', assumptions=PARSER_ASSUME + TOK_ASSUME, unclaimed=[]),
+    'C04': dict(verus=PARSERS + TOKS + GLUES, kani=['tables'], level='proof', assumptions=PARSER_ASSUME + TOK_ASSUME, unclaimed=[]),
+    'C12': dict(verus=PARSERS + TOKS + GLUES, level='proof', assumptions=PARSER_ASSUME + TOK_ASSUME, unclaimed=[]),
 }
 
 
